@@ -57,7 +57,7 @@ def _amax(x, axis, keepdims):
 
 @ops.amin.register(array)
 def _amin(x, axis, keepdims):
-    return np.amax(x, axis, keepdims=keepdims)
+    return np.amin(x, axis, keepdims=keepdims)
 
 
 @ops.sum.register(array)
